@@ -340,6 +340,17 @@ def _judge_entry(col: common.Collector, entry: str, name: str, ref: Any, ref_ext
     for key, d in sorted(H.diff_keys(diffs).items()):
         _viol(col, ("entry-point-differs", entry.split("/")[0]) + tuple(key[1:]),
                       dict(base, path=d["path"], from_archive=d["first"], from_entry=d["second"]))
+    if name.startswith("feat:") and "corpus" in ref_extra:
+        # "the loaded database does not depend on ...": also what it DOES with messages (state
+        # that is derived while loading - e.g. inherited DTCs - is no dataclass field)
+        col.ev()
+        c2 = H.corpus(db)
+        for k in sorted(ref_extra["corpus"]):
+            if ref_extra["corpus"][k] != c2.get(k):
+                _viol(col, ("entry-point-behaviour-differs", entry.split("/")[0], name),
+                      dict(base, key=k, from_archive=ref_extra["corpus"][k], from_entry=c2.get(k)))
+                break
+        col.count("entry-behaviour-compared")
     ex = _db_extras(db)
     for k in ("short_name", "model_version"):
         if ex[k] != ref_extra[k]:
@@ -361,10 +372,19 @@ def task_entry(task: Tuple[str, int], col: common.Collector) -> None:
         pdx2 = H.write_bytes(H.load_bytes(source_bytes(name)))
         ref = H.load_bytes(pdx2)
     except Exception as e:
-        col.count("entry_sources_without_baseline")
-        col.notes.setdefault("entry_skipped", []).append(f"{name}: {_exc(e)}")
-        return
+        # the written archive is no baseline (the round-trip leg reports that): the ways of loading
+        # are compared on the source archive itself
+        col.count("entry_sources_judged_on_the_source_archive")
+        try:
+            pdx2 = source_bytes(name)
+            ref = H.load_bytes(pdx2)
+        except Exception as e2:
+            col.count("entry_sources_without_baseline")
+            col.notes.setdefault("entry_skipped", []).append(f"{name}: {_exc(e2)}")
+            return
     ref_extra = _db_extras(ref)
+    if name.startswith("feat:"):
+        ref_extra["corpus"] = H.corpus(ref)
     members = list(H.pdx_members(pdx2))
     r = common.rng(0, "c11-entry-" + name)
     tmp = tempfile.mkdtemp(prefix="c11_")
@@ -877,6 +897,9 @@ def run(tier: str, col: common.Collector) -> None:
     entry_sources += [(n, 1 if tier == "quick" else 4) for n in usable
                       if n in ("feat:table-key-snrefs", "feat:sub-component-plain",
                                "feat:two-containers-inheritance")]
+    # no round trip (known finding: references that leave their document): judged on the source
+    entry_sources += [(n, 1 if tier == "quick" else 4) for n in names
+                      if n in ("feat:linked-dtc-dops-two-files",)]
     perts = plan(tier, usable, col)
     lap("plan")
     r = random.Random(common.seed() + 5)
